@@ -190,3 +190,27 @@ func zzH_c13_reject() {
 	vAssert("bad-ephemeral-rejected", err != nil && k == nil)
 	vReach("end")
 }
+
+// H13-xhat: keXHat(x) = 2^127 + (x mod 2^127) for every x, also when x has leading zero bytes.
+//
+//verif:property C13
+//verif:expect-reach end
+//verif:bound x ranges over all values with exactly k significant bytes for k in {1,2,15,16,17,18,31,32} (content symbolic)
+func zzH_c13_xhat() {
+	ks := []int{1, 2, 15, 16, 17, 18, 31, 32}
+	k := ks[vChoice("k", len(ks))]
+	top := new(big.Int).SetUint64(1 + vU64("x.top")%255)
+	top.Lsh(top, uint(8*(k-1)))
+	x := top
+	if k > 1 {
+		x = top.Add(top, new(big.Int).SetBytes(vBytes("x.rest", k-1, k-1)))
+	}
+	orig := new(big.Int).Set(x)
+	got := keXHat(x)
+	w := new(big.Int).Lsh(big.NewInt(1), 127)
+	want := new(big.Int).Mod(orig, w)
+	want.Add(want, w)
+	vAssert("xhat-eq-standard", got.Cmp(want) == 0)
+	vAssert("xhat-argument-unchanged", x.Cmp(orig) == 0)
+	vReach("end")
+}
